@@ -1,7 +1,16 @@
 """C11 — parsing is total and prompt.  Proof: scanner termination (structural) and the LR
 certificate theorem over the regenerated tables.  Tie: the implementation is run on every text
 of the stream under a watchdog; it must never hang or panic, and must agree with the model (which
-provably does neither) on whether a result is produced."""
+provably does neither) on whether a result is produced.
+Self-test (mutations tried in the worktree; /repo untouched):
+  T1  parser.y.go tables (scratch copy via VERIF_REPO): gritsDef[95] := 32 (a state that reduces the
+      empty production and returns to itself) -> z3 finds no weights, gen/LRCert.v is empty,
+      proofs/LRCertInst.v (cert_ok) fails, 47/68 obligations discharged, the extracted model reports
+      HANG on 5 generated texts: `VIOLATION ... no-failing-input-found` (the unmutated probe is fine).
+  S1  Scan.v: a single-character token consumes nothing -> proofs/ScanProofs.v (scan1_body_progress) fails.
+  S3  Expand.v: drop the has_illegal test -> ParseTotal.v, ParseSound.v, IllegalReject.v fail.
+  F19 (real finding) is detected by the growth families: bytes allocated grow by a factor 14-15 for 4x input.
+"""
 import json
 import time
 
@@ -57,7 +66,7 @@ def garbage(rng_seed, n):
     return "".join(rng.choice("()[]<>;:,.|+-*&{}1 ax") for _ in range(8 * n))
 
 
-GROWTH_N = {"quick": 400, "thorough": 2000}
+GROWTH_N = {"quick": 250, "thorough": 2000}
 
 
 def measure_growth(b, tier, only=None):
